@@ -62,6 +62,6 @@ instance (s : NoteSeq) : Decidable (NoSamePitchOverlap s) := by
 
 /-- the notes the specification prescribes -/
 def specNotes (ctl : Int) (s : NoteSeq) : List Note :=
-  s.notes.map (fun nt => { nt with end_ := heldEnd ctl s nt })
+  s.notes.map (fun nt => setEnd nt (heldEnd ctl s nt))
 
 end NSV.C14
